@@ -18,8 +18,9 @@ from ..common import Ctx
 
 LEVEL = "exploration"
 SHARDS = {"quick": 8, "thorough": 16}
-FLOOR = {"quick": 3000, "thorough": 20000}
-REQUIRED_COUNTERS = ["sequence_requests", "requests_captured", "cfg_with_query_key", "cfg_with_cookie_key", "cfg_case_overlap"]
+FLOOR = {"quick": 3000, "thorough": 60000}
+REQUIRED_COUNTERS = ["sequence_requests", "requests_captured", "cfg_with_query_key", "cfg_with_cookie_key", "cfg_case_overlap", "concurrent_requests",
+                     "concurrent_batches_out_of_launch_order"]
 RULE = ("every ordered selection of 0-3 plugins out of {Bearer, ApiKey-header, ApiKey-query, ApiKey-cookie, HeadersAuth, "
         "OAuth2, OAuth2+refresh} x header-overlap pattern x caller params/cookies/body presence x bearer_token shortcut; "
         "a case = (plugins, pattern, caller kwargs); non-trivial = >=1 plugin or overlapping header names")
@@ -337,9 +338,116 @@ async def run_sequence(ctx: Ctx, mods, plugs: tuple[str, ...], pattern_i: int, s
     await t.close()
 
 
+async def run_concurrent(ctx: Ctx, mods, plugs: tuple[str, ...], pattern_i: int, shortcut: bool, n: int, sched: int) -> None:
+    """n requests in flight at once on ONE transport (asyncio.gather), the fake server and the refresh callback yielding a
+    schedule-dependent number of times so that completions interleave differently per schedule.  Every request carries a
+    unique id and is judged on its own against the model: nothing of another in-flight request may show up in it."""
+    import random
+
+    import httpx
+
+    rec = ctx.rec
+    pattern = PATTERNS[pattern_i]
+    rng = random.Random(f"{plugs}-{pattern_i}-{shortcut}-{sched}")
+    delays = [rng.randrange(0, 6) for _ in range(n)]
+    captured: dict[str, httpx.Request] = {}
+    entry_order: list[str] = []
+    extra: list[str] = []
+
+    async def handler(request: httpx.Request) -> httpx.Response:
+        rid = request.url.params.get("rid", "?")
+        entry_order.append(rid)
+        if rid in captured:
+            extra.append(rid)
+        captured[rid] = request
+        for _ in range(delays[int(rid)] if rid.isdigit() and int(rid) < n else 0):
+            await asyncio.sleep(0)
+        return httpx.Response(200, json={"rid": rid})
+
+    class CapturingClient(httpx.AsyncClient):
+        def __init__(self, *a: Any, **kw: Any) -> None:
+            kw["transport"] = httpx.MockTransport(handler)
+            super().__init__(*a, **kw)
+
+    log: list = []
+    objs = [mk_plugin(mods, k, pattern, log) for k in plugs]
+    for o in objs:
+        cb = getattr(o, "refresh_callback", None)
+        if cb is not None:
+            async def slow_cb(old: str, _cb=cb) -> str:
+                for _ in range(rng.randrange(0, 4)):
+                    await asyncio.sleep(0)
+                return await _cb(old)
+            o.refresh_callback = slow_cb
+    auth = None if not objs else (objs[0] if len(objs) == 1 else mods["base"].CompositeAuth(*objs))
+    defaults = dict(pattern["defaults"]) if pattern["defaults"] else None
+    defaults_before = json.dumps(defaults, sort_keys=True)
+    orig = httpx.AsyncClient
+    httpx.AsyncClient = CapturingClient  # type: ignore[misc]
+    try:
+        t = mods["ht"].HttpxTransport("https://api.test", auth=auth, bearer_token="tokS" if shortcut else None, default_headers=defaults)
+    finally:
+        httpx.AsyncClient = orig  # type: ignore[misc]
+    case = {"concurrent": True, "plugins": list(plugs), "pattern": pattern_i, "shortcut": shortcut, "n": n, "schedule": sched}
+    feats = ["concurrent"]
+    reqs = []
+    for i in range(n):
+        hdrs = {"X-Req-Id": f"id{i}"}
+        if i % 2:
+            hdrs["x-a"] = f"over{i}"
+        if i % 3 == 0:
+            hdrs[f"X-Only-{i}"] = "1"
+        reqs.append({"headers": hdrs, "params": {"rid": str(i)}})
+    before = json.dumps(reqs, sort_keys=True)
+
+    async def one(i: int):
+        for _ in range(rng.randrange(0, 3)):
+            await asyncio.sleep(0)
+        return await t.request("GET", "/op1/x", **reqs[i])
+
+    rec.case(case, nontrivial=True)
+    rec.count("concurrent_batches")
+    results = await asyncio.gather(*[one(i) for i in range(n)], return_exceptions=True)
+    await t.close()
+    rec.seen("interleavings_observed", ",".join(entry_order))
+    if entry_order != sorted(entry_order, key=int):
+        rec.count("concurrent_batches_out_of_launch_order")
+    for i, res in enumerate(results):
+        rec.count("concurrent_requests")
+        if isinstance(res, BaseException):
+            rec.violation(f"concurrent:raise:{type(res).__name__}", feats, dict(case, request=i), repr(res))
+            continue
+        try:
+            if res.json().get("rid") != str(i):
+                rec.violation("concurrent:response_of_another_request", feats, dict(case, request=i), f"request {i} got the response of {res.json()}")
+        except Exception as e:  # noqa
+            rec.violation("concurrent:response_unreadable", feats, dict(case, request=i), repr(e))
+        r = captured.get(str(i))
+        if r is None:
+            rec.violation("concurrent:request_not_sent", feats, dict(case, request=i), f"ids seen: {sorted(captured)}")
+            continue
+        h, q, ck = model(plugs, dict(pattern, req_headers=reqs[i]["headers"]), reqs[i], shortcut)
+        for nme, v in h.items():
+            got = r.headers.get_list(nme)
+            if got != [v]:
+                rec.violation("concurrent:header_mismatch", feats, dict(case, request=i), f"request {i}: header {nme!r} expected [{v!r}] got {got!r}")
+        expected_names = {nme.lower() for nme, _ in h.items()}
+        for nme in r.headers:
+            if nme.lower().startswith("x-") and nme.lower() not in expected_names:
+                rec.violation("concurrent:header_of_another_request", feats, dict(case, request=i), f"request {i}: unexpected header {nme!r}={r.headers[nme]!r}")
+        if dict(r.url.params.multi_items()) != q:
+            rec.violation("concurrent:query_mismatch", feats, dict(case, request=i), f"{dict(r.url.params.multi_items())} != {q}")
+    if extra:
+        rec.violation("concurrent:request_sent_twice", feats, case, str(extra))
+    if json.dumps(reqs, sort_keys=True) != before:
+        rec.violation("concurrent:caller_kwargs_mutated", feats, case, "per-request dicts changed")
+    if json.dumps(defaults, sort_keys=True) != defaults_before:
+        rec.violation("concurrent:default_headers_mutated", feats, case, json.dumps(defaults))
+
+
 def all_cases(ctx: Ctx):
     sels = [()]
-    for k in (1, 2, 3):
+    for k in ((1, 2, 3) if ctx.quick else (1, 2, 3, 4)):
         sels += list(itertools.permutations(PLUGINS, k))
     i = 0
     for plugs in sels:
@@ -367,6 +475,16 @@ def run_shard(ctx: Ctx) -> None:
                     j += 1
                     if ctx.mine(j):
                         await run_sequence(ctx, mods, plugs, pi, shortcut)
+        conc = [(), ("bearer",), ("oauth_refresh",), ("key_query", "headers", "bearer"), ("oauth_refresh", "key_header"), ("key_cookie", "oauth_refresh", "headers")]
+        if not ctx.quick:
+            conc += list(itertools.permutations(PLUGINS, 2))
+        for plugs in conc:
+            for pi in range(len(PATTERNS)):
+                for shortcut in (False, True):
+                    for sched in range(3 if ctx.quick else 25):
+                        j += 1
+                        if ctx.mine(j):
+                            await run_concurrent(ctx, mods, plugs, pi, shortcut, 6 if sched % 2 else 3, sched)
 
     asyncio.run(go())
 
@@ -374,7 +492,9 @@ def run_shard(ctx: Ctx) -> None:
 def replay(ctx: Ctx, file: dict) -> None:
     mods = load()
     c = file["case"]
-    if c.get("sequence"):
+    if c.get("concurrent"):
+        asyncio.run(run_concurrent(ctx, mods, tuple(c["plugins"]), c["pattern"], c["shortcut"], c["n"], c["schedule"]))
+    elif c.get("sequence"):
         asyncio.run(run_sequence(ctx, mods, tuple(c["plugins"]), c["pattern"], c["shortcut"]))
     else:
         asyncio.run(run_case(ctx, mods, c))
